@@ -332,13 +332,33 @@ GOOD_WIT = {(0, 20, "b32"), (0, 32, "b32"), (1, 32, "b32m")}
 
 def o_accept_bech32(case):
     code, hrp, ver, prog, const = case["net"], case["hrp"], case["ver"], bytes.fromhex(case["prog"]), case["const"]
-    s = refenc.bech32_encode_raw(hrp, [ver] + refenc.to5(prog), refenc.BECH32_CONST if const == "b32" else refenc.BECH32M_CONST)
+    data5 = [ver] + refenc.to5(prog)
+    form = case.get("form")          # non-canonical data parts: correctly checksummed, but not what an encoder emits
+    if form == "surplus-zero-group":
+        data5 = data5 + [0]
+    elif form == "nonzero-padding" and (len(prog) * 8) % 5:
+        data5[-1] |= 1
+    elif form == "two-surplus-groups":
+        data5 = data5 + [0, 0]
+    s = refenc.bech32_encode_raw(hrp, data5, refenc.BECH32_CONST if const == "b32" else refenc.BECH32M_CONST)
     if case["upper"]:
         s = s.upper()
+    if form == "mixed-case":
+        idx = [i for i, ch in enumerate(s) if ch.isalpha()]
+        if len(idx) >= 2:
+            i = idx[len(prog) % len(idx)]
+            s = s[:i] + s[i].swapcase() + s[i + 1:]
     own = PFX[code]["hrp"]
-    wf = own is not None and hrp == own and (ver, len(prog), const) in GOOD_WIT and len(s) <= 90
+    # what the string really denotes is decided by the reference BIP173/BIP350 decoder (a surplus group can turn a
+    # 19-byte program into a perfectly valid 20-byte one): well-formed = decodes under the network's own HRP to a
+    # (version, length) the library supports
+    dec = refenc.segwit_decode(own, s) if own is not None else None
+    if dec is not None:
+        ver, prog = dec
+        const = "b32" if ver == 0 else "b32m"
+    wf = dec is not None and (ver, len(prog), const) in GOOD_WIT
     c = parse_addr(code, s)
-    lab = ["ver=%s" % (ver if ver < 2 else "2-16" if ver <= 16 else "17+"), "const=" + const,
+    lab = ["form=" + str(form), "ver=%s" % (ver if ver < 2 else "2-16" if ver <= 16 else "17+"), "const=" + const,
            "hrp-own" if hrp == own else "hrp-foreign", "len=%s" % (len(prog) if len(prog) in (20, 32) else "other")]
     if c is None:
         if wf and not case["upper"]:
@@ -368,14 +388,18 @@ def s_accept_bech32():
         if good is not None:
             ver, n, const = good
         return {"net": code, "hrp": hrp, "ver": ver, "prog": (body * 3)[:n].hex(), "const": const, "upper": upper}
-    return st.builds(mk, st.one_of(st.sampled_from(with_hrp), st.sampled_from(with_hrp), st.sampled_from(without)),
+
+    def with_form(d, form):
+        return dict(d, form=form) if form else d
+    return st.builds(with_form, st.builds(mk, st.one_of(st.sampled_from(with_hrp), st.sampled_from(with_hrp), st.sampled_from(without)),
                      st.one_of(st.sampled_from(HRPS), st.sampled_from(["b", "bc1", "x", "tbb", "lt"])),
                      st.sampled_from([False, False, False, True]),
                      st.one_of(st.integers(0, 16), st.integers(0, 17), st.sampled_from([0, 1])),
                      st.one_of(st.integers(2, 40), st.sampled_from([20, 32, 20, 32, 0, 1, 19, 21, 31, 33, 40, 41])),
                      st.binary(min_size=14, max_size=14), st.sampled_from(["b32", "b32m"]),
                      st.one_of(st.none(), st.none(), st.none(), st.sampled_from(sorted(GOOD_WIT))),
-                     st.sampled_from([False, False, False, True]))
+                     st.sampled_from([False, False, False, True])),
+                     st.sampled_from([None, None, None, "surplus-zero-group", "nonzero-padding", "two-surplus-groups", "mixed-case"]))
 
 
 def cases_accept_bech32_grid(tier):
